@@ -160,6 +160,11 @@ def run_case(case):
     _write_tree(_W["src"], names, case["src"], secs, links=case.get("links", ()))
     _write_tree(_W["dst"], names, case["dst"], secs)
     _extra_dirs(_W["dst"], case.get("dst_dirs", []))
+    for i, j in case.get("dst_links", ()):
+        # two destination names that are ONE inode (a de-duplicated tree, `cp -al`): delivering one of them must not touch the other
+        pi, pj = os.path.join(_W["dst"], names[i]), os.path.join(_W["dst"], names[j])
+        os.unlink(pj)
+        os.link(pi, pj)
     if case.get("dst_missing"):
         shutil.rmtree(_W["dst"])            # the destination root does not exist yet
     for i in case.get("leftover", []):
@@ -350,5 +355,8 @@ def random_cases(n, seed, dirs=("local", "push", "pull")):
         rng2 = random.Random(seed * 7919 + k)       # its own stream: the cases drawn above stay what they were
         if rng2.random() < 0.12:
             case["dangling"] = rng2.choice([("dst",), ("dst",), ("src",), ("src", "dst")])
+        same = [(i, j) for i in range(len(names)) for j in range(i + 1, len(names)) if case["dst"][i] and case["dst"][i] == case["dst"][j]]
+        if same and not case.get("dst_missing") and rng2.random() < 0.5:
+            case["dst_links"] = [rng2.choice(same)]
         out.append(case)
     return out
